@@ -355,7 +355,8 @@ class ReadModifyWriteRequestPacket(SendUnitDataRequestPacket):
         self._request_ids = []
         self._and_mask = 0xFFFF_FFFF_FFFF_FFFF
         self._or_mask = 0x0000_0000_0000_0000
-        self._mask_size = DataTypes.get(self.data_type).size
+        _type = DataTypes.get(self.data_type)
+        self._mask_size = getattr(_type, "size", None) or None
 
         if self._mask_size is None:
             raise RequestError(f'Invalid data type {tag_info["data_type"]} for writing bits')
